@@ -167,6 +167,9 @@ def _only_for_none_values(g, node, hit) -> bool:
             return True
         if t.kind == 'for' and lab == 'loop':
             it = t.stmt.iter
+            if isinstance(it, (ast.DictComp, ast.ListComp, ast.SetComp, ast.GeneratorExp)) and \
+                    any(isinstance(c, ast.Compare) and isinstance(c.ops[0], ast.Is) and const_value(c.comparators[0], 0) is None for gen in it.generators for c in gen.ifs):
+                return True          # the comprehension with the `is None` filter written in the loop header
             name = it.id if isinstance(it, ast.Name) else (it.func.value.id if isinstance(it, ast.Call) and isinstance(it.func, ast.Attribute) and isinstance(it.func.value, ast.Name) else None)
             if name:
                 defs = dom.assignments_to(g, name)
@@ -258,6 +261,16 @@ def required_attributes(ctx):
     for r in raises:
         guards = dom.guards_of(g, r)
         extra, have_missing, have_loop = [], False, False
+        # loops over `[a.name for a in <attributes> if a.is_required]`: their variable is a required attribute's name
+        names_loop_vars = set()
+        for t, lab in guards:
+            if t.kind == 'for' and lab == 'loop' and isinstance(t.stmt.target, ast.Name):
+                it = t.stmt.iter
+                if isinstance(it, ast.Name):
+                    ds_ = [d.ast.value for d in dom.assignments_to(g, it.id) if isinstance(d.ast, ast.Assign)]
+                    it = ds_[0] if len(ds_) == 1 else it
+                if isinstance(it, (ast.ListComp, ast.GeneratorExp)) and len(it.generators) == 1 and unparse(it.elt) == f"{unparse(it.generators[0].target)}.name":
+                    names_loop_vars.add(t.stmt.target.id)
         for t, lab in guards:
             if t.kind == 'for' and lab == 'loop':
                 it = t.stmt.iter
@@ -277,6 +290,10 @@ def required_attributes(ctx):
             if isinstance(t.ast, ast.Compare) and isinstance(t.ast.ops[0], ast.In) and unparse(t.ast.comparators[0]) in ATTR_OBJ and \
                     unparse(t.ast.left).endswith('.name') and lab == 'F':
                 have_missing = True          # canonical form of `name not in self.attributes` [T]
+                continue
+            if isinstance(t.ast, ast.Compare) and isinstance(t.ast.ops[0], ast.In) and unparse(t.ast.comparators[0]) in ATTR_OBJ and lab == 'F' and \
+                    isinstance(t.ast.left, ast.Name) and t.ast.left.id in names_loop_vars:
+                have_missing = True          # the loop runs over the *names* of the required attributes
                 continue
             if txt.endswith('.is_required') and lab == 'T':
                 continue
